@@ -1261,7 +1261,7 @@ impl<'a> Gen<'a> {
                 let is_intish = matches!(ty, Ty::S(Sc::Int | Sc::UInt) | Ty::V(Sc::Int | Sc::UInt, _));
                 match self.pick(8) {
                     0 | 1 if numeric => {
-                        let ops: &[&'static str] = if is_intish { &["+=", "-=", "*=", "/=", "%=", "<<=", ">>=", "&=", "|=", "^="] } else { &["+=", "-=", "*=", "/="] };
+                        let ops: &[&'static str] = if is_intish { &["+=", "-=", "*=", "/=", "%=", "<<=", ">>=", "&=", "|=", "^="] } else { &["+=", "-=", "*=", "/=", "%="] };
                         let op = ops[self.pick(ops.len())];
                         // the right operand may have another (convertible) scalar type
                         let rhs_ty = match (&ty, self.pick(4)) {
